@@ -41,6 +41,9 @@ Record facts := {
   f_eq_ign_left : bool;         (* Record.__eq__ passes IGNORE_FIELDS_FOR_COMPARISON to self._pack *)
   f_eq_ign_right : bool;        (* ... and to other._pack *)
   f_eq_isinstance_guard : bool; (* __eq__ answers False for a non-Record before packing *)
+  f_eq_descriptors : bool;      (* __eq__ answers False when self._descriptors() != other._descriptors(): the
+                                   descriptor (name, fields) of a plain record, the members' descriptors of a
+                                   grouped record; RecordDescriptor.__eq__ compares name and field tuples *)
   f_ne_default : bool;          (* neither Record nor GroupedRecord defines __ne__: `!=` is `not ==` *)
   f_hash_ign : bool;            (* Record.__hash__ passes the ignore set to _pack *)
   f_hash_deep : bool;           (* ... and freezes lists/tuples/dicts at every depth *)
@@ -54,7 +57,7 @@ Record facts := {
 }.
 
 Definition facts_ok (F : facts) : bool :=
-  f_eq_ign_left F && f_eq_ign_right F && f_eq_isinstance_guard F && f_ne_default F && f_hash_ign F &&
+  f_eq_ign_left F && f_eq_ign_right F && f_eq_isinstance_guard F && f_eq_descriptors F && f_ne_default F && f_hash_ign F &&
   f_hash_deep F && f_hash_dict_unordered F && f_skip_before_append F && f_grp_accepts F && f_grp_forwards F && f_ctx_finally F &&
   f_hashable_defined F.
 
@@ -75,6 +78,10 @@ Fixpoint lookup {A : Type} (k : string) (d : list (string * A)) : option A :=
   | [] => None
   | (k', v) :: t => if String.eqb k k' then Some v else lookup k t
   end.
+
+(* RecordDescriptor.get_field_tuples() == : the same (type, name) pairs in the same order *)
+Definition fields_eqb (f1 f2 : list (string * string)) : bool :=
+  all2 (fun a b => String.eqb (fst a) (fst b) && String.eqb (snd a) (snd b)) f1 f2.
 
 Fixpoint nodupb (l : list string) : bool :=
   match l with [] => true | x :: t => negb (mem x t) && nodupb t end.
@@ -167,7 +174,9 @@ Definition all_dict (f : pval -> pval -> bool) (d2 : list (string * pval)) : lis
 
 (* PyObject_RichCompareBool(a, b, Py_EQ) for an element [a] of the left record's packed tuple and the element
    [b] of the right one; [il] / [ir] = the excluded_fields each side's _pack is called with.  Two record
-   objects are compared by Record.__eq__, i.e. again through their packed tuples. *)
+   objects are compared by Record.__eq__: their descriptors (name and field tuples), then their packed tuples
+   (identifier and kept values).  For a grouped record __eq__ compares the tuple of the members' descriptors and
+   then (name, members' packed tuples), which is the same conjunction as comparing the members one by one. *)
 Fixpoint py_eq (il ir : list string) (a b : pval) {struct a} : bool :=
   match a, b with
   | PNone, PNone => true
@@ -179,7 +188,7 @@ Fixpoint py_eq (il ir : list string) (a b : pval) {struct a} : bool :=
   | PList l1, PList l2 => all2 (py_eq il ir) l1 l2
   | PDict d1, PDict d2 => Nat.eqb (List.length d1) (List.length d2) && all_dict (py_eq il ir) d2 d1
   | PRec n1 f1 v1, PRec n2 f2 v2 =>
-      String.eqb n1 n2 && (H n1 f1 =? H n2 f2)%Z &&
+      String.eqb n1 n2 && (H n1 f1 =? H n2 f2)%Z && (negb (f_eq_descriptors F) || fields_eqb f1 f2) &&
       all2_kept (py_eq il ir) il (slots f1) v1 (kept ir (slots f2) v2)
   | PGrp n1 m1, PGrp n2 m2 => String.eqb n1 n2 && all2 (py_eq (fw il) (fw ir)) m1 m2
   | PFset l1, PFset l2 =>
@@ -270,8 +279,3 @@ Fixpoint wf (v : pval) : bool :=
   | PFset _ => false
   | _ => true
   end.
-
-(* ---------- the input of the descriptor hash: calc_descriptor_hash feeds
-   name + "".join(f"{n}{t}" for t, n in fields) to sha256 ---------- *)
-Definition hash_input (name : string) (fields : list (string * string)) : string :=
-  (name ++ String.concat "" (map (fun tn => snd tn ++ fst tn) fields))%string.
